@@ -598,10 +598,66 @@ def check_C14(tier):
     return finish('C14', rep, gate)
 
 
+def alias_failing(case):
+    a = hist.real_worker(case); b = hist.real_worker_mutating(case)
+    if 'harness_error' in a or 'harness_error' in b:
+        return []
+    return hist.alias_diff(case, a, b)
+
+
+def check_C11(tier):
+    rep = core.Report('C11', tier)
+    gate = core.proof_gate(THEOREMS['C11'], tier)
+    ds = measure()
+    prof = dict(RICH_ARGS, rets=['acc', 'acc', 'const', 'const'], p_q=0.35)
+    cases = gen.gen_scenario_cases(core.seed() * 31 + 11, budget(tier, 20, 500), ds)
+    cases += random_cases(tier, 500, 25000, 11, prof=prof, dirsize=ds, p_fail=0.1, p_clean=0.0, min_builds=3, max_builds=5)
+    plain = core.pmap(hist.real_worker, cases)
+    mutated = core.pmap(hist.real_worker_mutating, cases)
+    nviol = 0
+    edges = {'alias_res': 0, 'alias_inv': 0, 'alias_cache': 0, 'alias_tree': 0}
+    for c, a, b in zip(cases, plain, mutated):
+        if 'harness_error' in a or 'harness_error' in b:
+            raise core.HarnessError(a.get('harness_error') or b.get('harness_error'))
+        rep.count('evaluations')
+        dsx = hist.alias_diff(c, a, b)
+        if sum(len(s['inv']) for s in a['steps'] if 'inv' in s) > 0:
+            rep.distinct.add(json.dumps([c['funcs'], c['steps']], sort_keys=True))
+        for d in dsx:
+            edges[d['cat']] += 1
+        if dsx:
+            nviol += 1
+            if nviol <= 3:
+                small = shrink_case(c, lambda cc: bool(alias_failing(cc)))
+                fails = alias_failing(small) or dsx
+                rep.violation('seed%s' % str(c.get('seed')).replace(':', '_'), {
+                    'property': 'C11', 'kind': 'failing-input', 'what': fails[:3], 'case': small,
+                    'how_to_replay': './check C11 --replay <this file>'},
+                    note='mutating values that crossed the API changed %s: %s' % (fails[0]['cat'], json.dumps(fails[0]['detail'])[:200]))
+    # the mutating run against the value-semantics model (FB.Impl has no aliasing by construction)
+    specs = model.run_cases(cases)
+    tie = 0
+    for c, b, s_ in zip(cases, mutated, specs):
+        dsx, _ = hist.analyze(c, b, s_)
+        if [d for d in dsx if d['cat'] in ('impl_res', 'impl_inv', 'impl_cache')]:
+            tie += 1
+    rep.count('mutating_run_vs_model_disagreements', tie)
+    if tie and not rep.violations:
+        rep.violation('tie', {'property': 'C11', 'kind': 'correspondence-broken',
+                              'no_longer_checks': 'the mutating run of the real code against the value-semantics model FB.Impl'},
+                      note='%d cases' % tie, no_input=True)
+    rep.coverage.update({'programs': len(cases), 'disagreements_checked': len(cases), 'differences_by_slice': edges,
+                         'edges': ['args into function', 'kwargs into function', 'caller argument objects after the call',
+                                   'object returned by the function', 'value returned by build_file/subbuild (fresh and cached)',
+                                   'query results (list_dir, walk, ...)']})
+    rep.samples.append({'seed': cases[0].get('seed'), 'steps': cases[0]['steps'][:3]})
+    return finish('C11', rep, gate)
+
+
 def check_TIE(tier): return run_hist_prop('TIE', tier, 99, 800, 40000)
 
 
-CHECKS = {'TIE': check_TIE, 'C14': check_C14, 'C09': check_C09, 'C17': check_C17, 'C01': check_C01, 'C02': check_C02, 'C03': check_C03, 'C04': check_C04, 'C05': check_C05,
+CHECKS = {'TIE': check_TIE, 'C11': check_C11, 'C14': check_C14, 'C09': check_C09, 'C17': check_C17, 'C01': check_C01, 'C02': check_C02, 'C03': check_C03, 'C04': check_C04, 'C05': check_C05,
           'C06': check_C06, 'C07': check_C07, 'C08': check_C08, 'C10': check_C10, 'C12': check_C12, 'C13': check_C13,
           'C15': check_C15, 'C16': check_C16, 'C18': check_C18}
 
@@ -609,6 +665,14 @@ CHECKS = {'TIE': check_TIE, 'C14': check_C14, 'C09': check_C09, 'C17': check_C17
 def replay(prop, path):
     with open(path) as fh:
         payload = json.load(fh)
+    if 'case' in payload and prop == 'C11':
+        fails = alias_failing(payload['case'])
+        if fails:
+            print('VIOLATION property=C11 replay=%s' % path)
+            print('  ' + json.dumps(fails[0])[:400])
+            return 1
+        print('replay: the recorded input no longer fails')
+        return 0
     if 'case' in payload and prop in ORACLE:
         fails = discrepancies(payload['case'], ORACLE[prop] + TIE[prop])
         if fails:
